@@ -196,7 +196,20 @@ def annotate(rng, recipe, bulk):
         else:
             if not r["subs"]:
                 continue
-            rng.choice(r["subs"])["label"] = t
+            target = rng.choice(r["subs"])
+            rr = rng.random()
+            if rr < .25:
+                # names spelled like operands the program already contains: named constants, field names, opcode names
+                t = rng.choice(["pay", "axfer", "appl", "NoOp", "OptIn", "TypeEnum", "Sender", "Amount", "ApplicationArgs", "ApplicationID", "Fee", "int", "txn", "b",
+                                "OnCompletion", "GroupIndex", "NumAppArgs"])
+            elif rr < .4:
+                # ... or like the label another subroutine gets
+                other = rng.choice(r["subs"])
+                t = "%s_%d" % (other.get("label") or other["name"], rng.randrange(0, len(r["subs"]) + 1))
+            elif rr < .5:
+                # very long runs of characters the label sanitiser removes, followed by text that must not survive
+                t = rng.choice(["-", "!", " ", "\u00e9", "_"]) * rng.choice([255, 256, 257, 300, 600]) + rng.choice([" ; err", "\nerr", " // x\nint 0", " x y", ";"])
+            target["label"] = t
         notes.append([kind, t])
         budget -= 1
     return r, notes, nonce
